@@ -449,7 +449,7 @@ def p7(prog, rep):
         a, b = norm(diff[0].kid(1)), norm(du[0].kid(1))
         ok = side(a[1]) == DL and side(a[2]) == NOW and side(b[1]) == DL and side(b[2]) == NOW and a[1][2] == a[2][2] == "tv_sec" and b[1][2] == b[2][2] == "tv_usec"
         bor = [e for e in f.all_elems() if e.is_assign and e.op == "+=" and norm(e.kid(1)) == ("c", 1000000)]
-        dec = [e for e in f.all_elems() if e.is_assign and e.op == "-=" and norm(e.kid(1)) == ("c", 1) and norm(e.kid(0))[2] == "tv_sec"]
+        dec = [e for e in f.all_elems() if ir.step(e) and ir.step(e)[0] == "-=" and ir.step(e)[2] == ("c", 1) and ir.step(e)[1][0] == "." and ir.step(e)[1][2] == "tv_sec"]
         ok = ok and len(bor) == 1 and len(dec) == 1
         if ok:
             g = [(op, L, R) for cond, truth in f.edge_conds(bor[0]) for op, L, R, _, _ in cond_atoms(cond, truth)]
